@@ -2,6 +2,7 @@ import Dmn.Lemmas.EvalM
 import Dmn.Lemmas.ParserScope
 import Dmn.Lemmas.DrgScope
 import Dmn.Lemmas.Iter
+import Dmn.Gen.EvaluatorState
 
 /-!
 # C13 — evaluation is pure: the caller's scope is untouched
@@ -572,3 +573,135 @@ example :
   ⟨_, rfl, rfl, rfl⟩
 
 end Dmn.Drg
+
+/-!
+# C13, second clause — a prepared evaluator answers as if it were evaluated for the first time
+
+A prepared evaluator (`build_evaluator` result, `build_decision_table_evaluator` result) is a stored closure that
+is called again and again with different scopes.  To be able to *state* "the answer does not depend on the
+history" the closure is modelled as a machine with a state of its own: `Prepared σ` answers a scope and moves
+to a next state.  The evaluator of the model (`preparedEval`, `preparedTable`) is the machine whose state is
+`Unit`; a closure that keeps something between calls (a name resolved once, the rule that matched last) is a
+machine whose answer reads the state (`memoisingName`, the shape of the seeded change C13-18).  The tie of
+"the code's closures are machines with no state" is `evaluators_hold_no_state` (the regenerated table of interior
+mutability in the builders) and the correspondence family `reuse` (one evaluator over scopes A, B, A, C, B).
+-/
+
+namespace Dmn.Eval
+
+/-- a stored evaluator with a state of its own: the answer to a scope and the next state -/
+structure Prepared (σ α : Type) where
+  init : σ
+  step : σ → Scope → α × σ
+
+namespace Prepared
+variable {σ α : Type}
+
+/-- the state after a history of scopes -/
+def after (p : Prepared σ α) : List Scope → σ
+  | [] => p.init
+  | s :: h => (p.step (p.after h) s).2
+
+/-- the answer to `s` after the history `h` (most recent first) -/
+def answer (p : Prepared σ α) (h : List Scope) (s : Scope) : α := (p.step (p.after h) s).1
+
+/-- the answers do not read the state -/
+def Stateless (p : Prepared σ α) : Prop := ∀ st₁ st₂ s, (p.step st₁ s).1 = (p.step st₂ s).1
+
+end Prepared
+
+/-- **History independence**: a prepared evaluator whose answers do not read its state answers every scope,
+after every history of evaluations in other scopes — in any order, any number of them — as a freshly prepared
+one does; in particular two histories give the same answer (A, B, A, C, B: the two answers to A are equal, the
+two answers to B are equal). -/
+theorem prepared_history_independent {σ α : Type} (p : Prepared σ α) (hp : p.Stateless)
+    (h₁ h₂ : List Scope) (s : Scope) : p.answer h₁ s = p.answer h₂ s ∧ p.answer h₁ s = p.answer [] s :=
+  ⟨hp _ _ s, hp _ _ s⟩
+
+/-- the evaluator of the model, prepared for the tree `a` -/
+def preparedEval (num : NumOps) (bp : String → List Value → Outcome Value)
+    (bn : String → List (String × Value × Nat) → Outcome Value) (fuel : Nat) (a : Ast) :
+    Prepared Unit (Outcome (Value × Scope)) :=
+  { init := (), step := fun _ s => (eval num bp bn fuel a s, ()) }
+
+/-- **The model's prepared evaluator is a function of (tree, scope)**: after any history of evaluations in
+any scopes it gives the scope `s` the outcome of `eval … a s`, and leaves `s` as it found it. -/
+theorem prepared_eval_pure (num : NumOps) (bp : String → List Value → Outcome Value)
+    (bn : String → List (String × Value × Nat) → Outcome Value) (fuel : Nat) (a : Ast)
+    (h : List Scope) (s : Scope) :
+    (preparedEval num bp bn fuel a).answer h s = eval num bp bn fuel a s ∧
+      ∀ v s', (preparedEval num bp bn fuel a).answer h s = .ok (v, s') → s' = s := by
+  refine ⟨rfl, fun v s' hv => ?_⟩
+  exact eval_scope_preserved num bp bn fuel a s v s' hv
+
+/-- The shape of the seeded change C13-18 (`build_name` with a `OnceLock`): the state remembers that the name
+was once resolved to a built-in function (it was unbound in some scope of the history); from then on the
+scope is not consulted any more. -/
+def memoisingName (n : String) : Prepared Bool Value :=
+  { init := false
+    step := fun resolved s =>
+      if resolved then (.bif n, true)
+      else match Scope.getEntry s n with
+        | some v => (v, false)
+        | none => (.bif n, true) }
+
+/-- **Sensitivity**: that machine is not stateless, and its answers depend on the history — in the scope that
+binds `count` to 100 it answers 100 when fresh and the built-in function after one evaluation in a scope
+that does not bind `count` (the demonstration of C13-18: user, plain, user). -/
+theorem memoising_name_depends_on_history :
+    let user : Scope := [[("count", .num ⟨false, 100, 0⟩)]]
+    let plain : Scope := [[("items", .null)]]
+    (memoisingName "count").answer [] user = .num ⟨false, 100, 0⟩ ∧
+      (memoisingName "count").answer [plain, user] user = .bif "count" ∧
+      ¬ (memoisingName "count").Stateless := by
+  refine ⟨?_, ?_, ?_⟩
+  · simp [Prepared.answer, Prepared.after, memoisingName, Scope.getEntry, Ctx.get]
+  · simp [Prepared.answer, Prepared.after, memoisingName, Scope.getEntry, Ctx.get]
+  · intro h
+    have := h false true [[("count", .num ⟨false, 100, 0⟩)]]
+    simp [memoisingName, Scope.getEntry, Ctx.get] at this
+
+end Dmn.Eval
+
+namespace Dmn.Drg
+open Dmn.Eval
+
+/-- the decision-table evaluator of the model layer, prepared for one table -/
+def preparedTable (env : Env) (hitPolicy : String) (inputs outputs rules : List Ast) :
+    Prepared Unit (Outcome (Value × Scope)) :=
+  { init := (), step := fun _ s => (evalTable env hitPolicy inputs outputs rules s, ()) }
+
+/-- **A prepared decision table answers as if evaluated for the first time**, for every hit policy and every
+table (overlapping rules included: what a UNIQUE or ANY table answers in the overlap region is what
+`evalTable` says there, whatever was evaluated before — the seeded change C13-19 kept the rule that matched
+last), and leaves the scope as found. -/
+theorem prepared_table_pure (base : Env) (g : Drg) (G ff : Nat) (hitPolicy : String) (inputs outputs rules : List Ast)
+    (h₁ h₂ : List Scope) (s : Scope) :
+    (preparedTable (level base g G ff).env hitPolicy inputs outputs rules).answer h₁ s =
+      (preparedTable (level base g G ff).env hitPolicy inputs outputs rules).answer h₂ s ∧
+    (preparedTable (level base g G ff).env hitPolicy inputs outputs rules).answer h₁ s =
+      evalTable (level base g G ff).env hitPolicy inputs outputs rules s ∧
+    ∀ v s', (preparedTable (level base g G ff).env hitPolicy inputs outputs rules).answer h₁ s = .ok (v, s') → s' = s :=
+  ⟨rfl, rfl, fun v s' hv => dt_scope_preserved base g G ff hitPolicy inputs outputs rules s v s' hv⟩
+
+end Dmn.Drg
+
+namespace Dmn.Eval
+
+/-- **The builders keep no state** (table regenerated by `translate/evaluator_state.py` on every run from
+feel-evaluator/src, model-evaluator/src/builders, feel/src/evaluator.rs and function.rs, test code excluded):
+the only mention of a type or macro with interior mutability or lazy / once initialisation is the
+`lazy_static!` table of the parameter names of the named built-in functions (`bifs/named.rs`, constants
+`NAME_…: Name`, initialised from literals, read only) and the `extern crate` that provides the macro.  No
+`Cell`, `RefCell`, `OnceLock`, `OnceCell`, `Lazy`, `Once`, atomic, `Mutex`, `RwLock`, `static mut` or
+`thread_local!` occurs in a `build_*` function or anywhere else in the code that builds and runs evaluators, so
+the closures are machines without state in the sense of `Prepared.Stateless` (both seeded changes of wave 8
+against this property add an entry: `build_name` / `OnceLock`, `build_decision_table_evaluator` /
+`AtomicUsize`). -/
+theorem evaluators_hold_no_state :
+    Gen.evaluatorState =
+      [("feel-evaluator/src/bifs/named.rs", "", "lazy_static"), ("feel-evaluator/src/lib.rs", "", "lazy_static")] ∧
+    Gen.evaluatorStateFiles ≥ 15 := by
+  decide
+
+end Dmn.Eval
